@@ -693,9 +693,13 @@ func (c *caseT) minigoC(coqflags []string, out string) {
 	for _, f := range fs {
 		qfs = append(qfs, strconv.Quote(f))
 	}
-	if !cp.Stateful {
-		fmt.Fprintf(&b, "Definition A_src : cprog := [%s].\nEval vm_compute in \"MARK ORDER\".\nGoal option_map (fun o => filter (fun n => negb (String.eqb n %q)) (map cf_name (pick A_src o))) (emit_order (decls_of A_src)) = Some [%s]. Proof. vm_compute. reflexivity. Qed.\n",
-			strings.Join(src, "; "), cp.Bad, strings.Join(qfs, "; "))
+	{
+		progT, pickF, declsF, nameF := "cprog", "pick", "decls_of", "cf_name"
+		if cp.Stateful {
+			progT, pickF, declsF, nameF = "sprog", "spick", "sdecls_of", "sf_name"
+		}
+		fmt.Fprintf(&b, "Definition A_src : %s := [%s].\nEval vm_compute in \"MARK ORDER\".\nGoal option_map (fun o => filter (fun n => negb (String.eqb n %q)) (map %s (%s A_src o))) (emit_order (%s A_src)) = Some [%s]. Proof. vm_compute. reflexivity. Qed.\n",
+			progT, strings.Join(src, "; "), cp.Bad, nameF, pickF, declsF, strings.Join(qfs, "; "))
 	}
 	fmt.Fprintf(&b, "Eval vm_compute in \"MARK PROG\".\nGoal %s [%s] = Some [%s]. Proof. vm_compute. reflexivity. Qed.\n", trp, strings.Join(as, "; "), strings.Join(fs, "; "))
 	all := as
